@@ -76,16 +76,16 @@ Theorem C24_statements_are_depth0_semicolon_runs : forall toks ss, split_stmts t
     match tl with [] => True | w :: _ => wtok w = xgo_EOF end.
 Proof. exact split_stmts_shape. Qed.
 
-(* SourceEx succeeds whenever Source succeeds on the original or on the rearrangement
-   (format.Source is a parameter: any function) *)
-Theorem C24_sourceex_succeeds : forall (Source : str -> option str) src toks r, tiling src toks = true ->
-  rearrange src toks = Ok r -> (Source src <> None \/ Source r <> None) ->
-  exists f, source_ex Source src toks = Ok (Some f).
+(* SourceEx(src, class) succeeds whenever Source(., class) succeeds on the original or on the rearrangement,
+   for BOTH values of the class flag (format.Source is a parameter: any function of (source, class)) *)
+Theorem C24_sourceex_succeeds : forall (Source : str -> bool -> option str) src class toks r, tiling src toks = true ->
+  rearrange src toks = Ok r -> (Source src class <> None \/ Source r class <> None) ->
+  exists f, source_ex Source src class toks = Ok (Some f).
 Proof. exact source_ex_succeeds. Qed.
 
-Theorem C24_sourceex_result : forall (Source : str -> option str) src toks, tiling src toks = true ->
+Theorem C24_sourceex_result : forall (Source : str -> bool -> option str) src class toks, tiling src toks = true ->
   exists r, rearrange src toks = Ok r /\
-    source_ex Source src toks = Ok (match Source src with Some f => Some f | None => Source r end).
+    source_ex Source src class toks = Ok (match Source src class with Some f => Some f | None => Source r class end).
 Proof. exact source_ex_spec. Qed.
 
 (* non-vacuity:  "a\nfunc f(){}\n"  scanned as  a ; func f ( ) { } ;  *)
@@ -122,9 +122,11 @@ Example C24_example_panic_without_tiling :
   rearrange [120]%N [mkWord 5 xgo_IDENT; mkWord 6 xgo_SEMICOLON] = Panic.
 Proof. vm_compute. reflexivity. Qed.
 Example C24_example_sourceex :
-  source_ex (fun s => if str_eqb s ex_src then None else Some s) ex_src ex_toks
-  = Ok (Some [102;117;110;99;32;102;40;41;123;125;10; 97;10]%N).
-Proof. vm_compute. reflexivity. Qed.
+  source_ex (fun s c => if str_eqb s ex_src then None else if c then Some s else None) ex_src true ex_toks
+  = Ok (Some [102;117;110;99;32;102;40;41;123;125;10; 97;10]%N) /\
+  (* a Source that only accepts the rearrangement as a class file: the flag must reach the second attempt *)
+  source_ex (fun s c => if str_eqb s ex_src then None else if c then Some s else None) ex_src false ex_toks = Ok None.
+Proof. vm_compute. split; reflexivity. Qed.
 
 Print Assumptions C24_rearrange_no_panic.
 Print Assumptions C24_rearrange_identity_without_stmt.
